@@ -79,6 +79,29 @@ pub fn report_tree<T: Elem>(planner: &mut AnyPlanner<T>, n: usize, dir: FftDirec
     }))
 }
 
+/// length of the transform described by a flat plan tree (same rules as spec/Recipe.tla NodeLen); None for unknown kinds
+fn flat_len(tree: &Value) -> Option<u64> {
+    let nodes = tree.as_array()?;
+    let mut lens: Vec<Option<u64>> = Vec::with_capacity(nodes.len());
+    for nd in nodes {
+        let k = nd["k"].as_str()?;
+        let p: Vec<u64> = nd["p"].as_array()?.iter().filter_map(|x| x.as_u64()).collect();
+        let ch: Vec<Option<u64>> = nd["ch"].as_array()?.iter().map(|c| c.as_u64().and_then(|i| lens.get(i as usize - 1).copied().flatten())).collect();
+        let c = |i: usize| -> Option<u64> { ch.get(i).copied().flatten() };
+        let l = match k {
+            "Dft" | "Butterfly" | "PrimeButterfly" | "ButterflyBase" | "CacheBase" | "RadersBase" | "BluesteinsBase" | "BluesteinsAlgorithm" => p.first().copied(),
+            "MixedRadix" | "MixedRadixSmall" | "GoodThomasAlgorithm" | "GoodThomasAlgorithmSmall" => Some(c(0)? * c(1)?),
+            "RadersAlgorithm" => Some(c(0)? + 1),
+            "RadixN" => Some(c(0)? * p.iter().product::<u64>()),
+            "Radix4" => Some(c(0)? * 4u64.pow(*p.first()? as u32)),
+            "AvxRadix" => Some(c(0)? * p.first()?),
+            _ => None,
+        };
+        lens.push(l);
+    }
+    lens.last().copied().flatten()
+}
+
 fn report_sweep<T: Elem>(ctx: &mut Ctx, kind: Kind, lens: &[usize], block: usize, item0: &mut usize) {
     for chunk in lens.chunks(block) {
         let idx = *item0;
@@ -92,10 +115,22 @@ fn report_sweep<T: Elem>(ctx: &mut Ctx, kind: Kind, lens: &[usize], block: usize
                 ctx.case(format!("r {} {} {}", kind.name(), T::ELEM, n), n >= 2);
                 match report_tree(&mut planner, n, d) {
                     None => {}
-                    Some(Ok(tree)) => ctx.tr.emit(
-                        "PlanReport",
-                        json!({"pid": pid, "n": n, "dir": dir_name(d), "outcome": "ok", "tree": tree}),
-                    ),
+                    Some(Ok(tree)) => {
+                        let suspect = flat_len(&tree) != Some(n as u64);
+                        ctx.tr.emit(
+                            "PlanReport",
+                            json!({"pid": pid, "n": n, "dir": dir_name(d), "outcome": "ok", "tree": tree}),
+                        );
+                        // A report whose tree does not multiply out to n is only a suspicion (the reader of the report is
+                        // part of the harness): look closer by really building that length; TLC judges the real PlanEnd.
+                        if suspect && n <= (1 << 22) {
+                            ctx.tr.emit("Note", json!({"what": "suspect-report-built", "n": n, "kind": kind.name()}));
+                            if let Some((pid2, mut fresh)) = ctx.new_planner::<T>(kind) {
+                                ctx.plan(pid2, &mut fresh, n, d, false);
+                                ctx.plan(pid2, &mut fresh, n, d.opposite_direction(), false);
+                            }
+                        }
+                    }
                     Some(Err(msg)) => ctx.tr.emit(
                         "PlanReport",
                         json!({"pid": pid, "n": n, "dir": dir_name(d), "outcome": "panic", "tree": [],
